@@ -2,8 +2,10 @@ package routing
 
 import (
 	"fmt"
+	"runtime"
 	"strings"
 	"sync"
+	"sync/atomic"
 	"testing"
 	"time"
 
@@ -248,4 +250,185 @@ func TestVerifC05ConcurrentFailures(t *testing.T) {
 		}
 	}, c05ConcBody)
 	_ = fmt.Sprint
+}
+
+
+// ---- unforced: many transmissions of one bundle fail at the same instant on different CPUs ----
+
+type c05SimulCase struct {
+	Algo    string `json:"algo"`
+	NPeers  int    `json:"npeers"`
+	Bundles int    `json:"bundles"`
+	Local   bool   `json:"local"`
+}
+
+func TestVerifC05SimultaneousFailures(t *testing.T) {
+	u := vk.Unit{Property: "C05", Name: "c05.simultaneous-failures", Quick: 6, Thorough: 150,
+		Rule: "4..12 peers whose Send calls rendezvous (spin barrier: all transmissions of the bundle are in flight) and then fail together; 8..30 bundles treated this way one after the other (epidemic / prophet / spray with a large budget); then the links recover and one retry tick runs. Oracle: every bundle is still pending after its failures, and the retry offers every bundle to every peer whose transmission had failed. Every case non-trivial; distinct by parameters. The schedule is the runtime's; a failure reproduces only statistically"}
+	vk.Check(t, u, func(t *rapid.T) c05SimulCase {
+		return c05SimulCase{Algo: rapid.SampledFrom([]string{"epidemic", "epidemic", "prophet", "spray"}).Draw(t, "algo"), NPeers: rapid.IntRange(4, 12).Draw(t, "npeers"),
+			Bundles: rapid.IntRange(8, 30).Draw(t, "bundles"), Local: rapid.Bool().Draw(t, "local")}
+	}, func(c *vk.Ctx, cs c05SimulCase) {
+		c.NonTrivial()
+		c.Class("algo=" + cs.Algo)
+		h := hCase{Algo: cs.Algo, NPeers: cs.NPeers, L: 64}
+		if cs.Algo != "spray" {
+			h.L = 0
+		}
+		for i := 0; i < cs.Bundles; i++ {
+			h.Bundles = append(h.Bundles, hBundle{Local: cs.Local || cs.Algo == "spray", Dest: 99, Prev: -1})
+		}
+		w := newHWorld(c, &h)
+		defer w.s.close()
+		var arrived int32
+		var gen int32
+		parties := int32(cs.NPeers)
+		gate := func() {
+			g := atomic.LoadInt32(&gen)
+			atomic.AddInt32(&arrived, 1)
+			deadline := time.Now().Add(300 * time.Millisecond)
+			for i := 1; atomic.LoadInt32(&arrived) < (g+1)*parties; i++ {
+				if i%1024 == 0 {
+					if time.Now().After(deadline) {
+						return
+					}
+					runtime.Gosched()
+				}
+			}
+		}
+		for i := 0; i < cs.NPeers; i++ {
+			w.s.addPeer(w.names[i])
+			w.s.setFailAll(w.names[i], true)
+		}
+		if cs.Algo == "prophet" {
+			c05ProphetAdvertise(w, "dtn://faraway/inbox")
+		}
+		for i := 0; i < cs.NPeers; i++ {
+			p := w.s.peers[w.names[i]]
+			p.mu.Lock()
+			p.gate = gate
+			p.mu.Unlock()
+		}
+		op := "recv"
+		if cs.Local || cs.Algo == "spray" {
+			op = "submit"
+		}
+		failed := make([]map[string]bool, cs.Bundles)
+		for b := 0; b < cs.Bundles; b++ {
+			atomic.StoreInt32(&gen, int32(b))
+			atomic.StoreInt32(&arrived, int32(b)*parties)
+			w.apply(b, hOp{Op: op, A: b})
+			news := w.absorb()
+			failed[b] = map[string]bool{}
+			for _, x := range news {
+				if w.stateOf(x.Raw) == w.bs[b] && !x.OK {
+					failed[b][x.Peer] = true
+				}
+			}
+			if len(failed[b]) == cs.NPeers {
+				c.Class("all transmissions of a bundle in flight together")
+			}
+			if !w.pendingPayloads()[w.bs[b].payload] {
+				w.s.failf("c05.lost", "%d transmissions of bundle %d failed at the same moment; afterwards the bundle is not among the store's pending items", len(failed[b]), b)
+			}
+		}
+		for i := 0; i < cs.NPeers; i++ {
+			p := w.s.peers[w.names[i]]
+			p.mu.Lock()
+			p.gate = nil
+			p.mu.Unlock()
+			w.s.setFailAll(w.names[i], false)
+		}
+		w.s.logf("sends succeed again; pending-retry tick")
+		w.s.tickPending()
+		news := w.absorb()
+		missing := 0
+		var first string
+		for b := 0; b < cs.Bundles; b++ {
+			for n := range failed[b] {
+				if !w.sentTo(news, w.bs[b], n) {
+					missing++
+					if first == "" {
+						first = fmt.Sprintf("bundle %d to %s", b, n)
+					}
+				}
+			}
+		}
+		if missing > 0 {
+			w.s.failf("c05.failed-peer-not-retried", "%d bundles were each offered to %d peers whose transmissions failed at the same instant; at the next retry tick %d of the failed transmissions were not repeated (first: %s) although the peers are connected and the node holds the bundles", cs.Bundles, cs.NPeers, missing, first)
+		}
+	})
+}
+
+// ---- directed scenarios: submissions around a restart, per creation-time kind ------------------
+
+type c05Dir struct {
+	Algo    string `json:"algo"`
+	TsKind  int    `json:"tskind"`  // 0 now, 1 same millisecond, 2 zero creation time + age block
+	N1      int    `json:"n1"`      // submissions (or receptions) before the restart
+	Restart int    `json:"restart"` // number of orderly restarts (0..2)
+	N2      int    `json:"n2"`      // submissions afterwards
+	Local   bool   `json:"local"`
+	Clean   bool   `json:"clean"` // a store-cleaning tick before the destination appears
+}
+
+func TestVerifC05Directed(t *testing.T) {
+	u := vk.Unit{Property: "C05", Name: "c05.directed",
+		Rule: "exhaustive product: algorithm (6) x creation-time kind (now / same millisecond / zero + age block) x 1..3 bundles accepted while no peer is connected x 0..2 orderly restarts x 0..2 further bundles afterwards x submitted locally or received x optional store-cleaning tick; then the destination node appears and a retry tick runs. Oracle as c05.histories (retained and pending until a success; transmitted to the connected destination). Every case non-trivial (bundles wait in the store); distinct by tuple"}
+	vk.Enumerate(t, u, true, func(yield func(c05Dir) bool) {
+		i := 0
+		for _, algo := range c05Algos {
+			for ts := 0; ts <= 2; ts++ {
+				for n1 := 1; n1 <= 3; n1++ {
+					for rs := 0; rs <= 2; rs++ {
+						for n2 := 0; n2 <= 2; n2++ {
+							for _, local := range []bool{true, false} {
+								for _, clean := range []bool{false, true} {
+									if rs == 0 && n2 > 0 {
+										continue // same as a larger n1
+									}
+									i++
+									if !vk.ShardOwns(i) {
+										continue
+									}
+									if !yield(c05Dir{algo, ts, n1, rs, n2, local, clean}) {
+										return
+									}
+								}
+							}
+						}
+					}
+				}
+			}
+		}
+	}, func(c *vk.Ctx, d c05Dir) {
+		c.NonTrivial()
+		cs := hCase{Algo: d.Algo, NPeers: 2, L: 4}
+		if d.Algo != "spray" && d.Algo != "binary_spray" {
+			cs.L = 0
+		}
+		verb := "recv"
+		if d.Local {
+			verb = "submit"
+		}
+		for i := 0; i < d.N1+d.N2; i++ {
+			cs.Bundles = append(cs.Bundles, hBundle{Local: d.Local, Dest: 0, Prev: -1, TsKind: d.TsKind})
+		}
+		for i := 0; i < d.N1; i++ {
+			cs.Ops = append(cs.Ops, hOp{Op: verb, A: i})
+		}
+		for r := 0; r < d.Restart; r++ {
+			cs.Ops = append(cs.Ops, hOp{Op: "restart"})
+			if r == 0 {
+				for i := 0; i < d.N2; i++ {
+					cs.Ops = append(cs.Ops, hOp{Op: verb, A: d.N1 + i})
+				}
+			}
+		}
+		if d.Clean {
+			cs.Ops = append(cs.Ops, hOp{Op: "clean"})
+		}
+		cs.Ops = append(cs.Ops, hOp{Op: "up", A: 0}, hOp{Op: "tick"}, hOp{Op: "tick"})
+		c05Body(c, cs)
+	})
 }
